@@ -192,6 +192,9 @@ func (e *Engine) exec(c *Config, steps *int) ([]*Config, *leaf) {
 			}
 			e.set(c, f, ins, v)
 			f.Idx++
+		case *ssa.MapUpdate:
+			// a map store has no effect on anything the scanner domain tracks (integers, input slices, errors)
+			f.Idx++
 		case *ssa.Panic:
 			return nil, e.undecided(c, ins.Pos(), "explicit panic reachable")
 		default:
@@ -972,6 +975,7 @@ func (e *Engine) unsafe(c *Config, pos token.Pos, fn, format string, a ...interf
 
 // checkIndex: Lo <= pos < Hi must hold.
 func (e *Engine) checkIndex(c *Config, f *Frame, pos token.Pos, p Form, s SliceV) {
+	e.notePos(pos)
 	okHi := false
 	if iv, ok, _, _, _ := c.evalDiff(p.add(s.Hi, -1)); ok {
 		if v, dec := decide(token.LSS, iv); dec && v {
@@ -992,6 +996,7 @@ func (e *Engine) checkIndex(c *Config, f *Frame, pos token.Pos, p Form, s SliceV
 }
 
 func (e *Engine) checkSlice(c *Config, f *Frame, pos token.Pos, lo, hi Form, s SliceV) {
+	e.notePos(pos)
 	ok1, ok2, ok3 := false, false, false
 	if iv, ok, _, _, _ := c.evalDiff(s.Lo.add(lo, -1)); ok {
 		if v, dec := decide(token.LEQ, iv); dec && v {
@@ -1754,4 +1759,13 @@ func computeSubBase(fn *ssa.Function) map[ssa.Value]ssa.Value {
 		}
 	}
 	return out
+}
+
+
+// notePos records that the index / slice expression at pos was judged by this engine (whatever the verdict).
+func (e *Engine) notePos(pos token.Pos) {
+	if e.Checked == nil {
+		e.Checked = map[token.Pos]bool{}
+	}
+	e.Checked[pos] = true
 }
